@@ -13,7 +13,7 @@ func init() {
 	register("C07", propMeta{
 		Level: "other",
 		Explanation: "R07a (path machine over executionContext.run): on every path with a non-empty idempotency key the key is reserved (Referencer.take, kind referenceIks) before the store lookup and before the executor runs, the reservation is released by a defer of run itself (so after the persistence wait, R06a) and never earlier. " +
-			"R07b: every log that is chained in package command (both the real and the preview path) comes from a builder whose every return has, when the key is non-empty, passed through Log.WithIdempotencyKey(Parameters.IdempotencyKey) — for every kind of write, because all kinds funnel through the same function. R07c: the store lookup by key is ledger-scoped and filters on the key column.",
+			"R07b: every log that is chained in package command (both the real and the preview path) comes from a builder whose every return has, when the key is non-empty, passed through Log.WithIdempotencyKey(Parameters.IdempotencyKey) — for every kind of write, because all kinds funnel through the same function. R07c: the store lookup by key is ledger-scoped and filters on the key column. R07d: between the engine and the store the key is only ever copied. R07e: the lookup sees every committed log carrying the key — in the PostgreSQL store its query is conditioned by the key and the ledger only, in the other stores it reads no other field of the stored records — so no committed holder of the key is filtered out of the check.",
 		NotDecided:  "uniqueness in SQL (there is no unique index on idempotency_key; the in-memory reservation plus the lookup is the whole mechanism); behaviour across several processes sharing one ledger.",
 		Trusted:     []string{"sync.Map LoadOrStore/Delete semantics", "defer ordering"},
 		Assumptions: []string{"a single process writes to a ledger (the Referencer is in-memory)"},
@@ -26,7 +26,7 @@ func init() {
 	})
 	register("C11", propMeta{
 		Level: "other",
-		Explanation: "R11a (path machine over every function that reserves a transaction reference): with a non-empty reference, the reservation (Referencer.take, kind referenceTxReference) precedes the store lookup; the log is handed off only after reservation and lookup, never on the path where the lookup found a transaction; the reservation is released (directly or by defer) only on paths that have waited for the persistence signal of the handed-off log or handed nothing off. R11b: the lookup is ledger-scoped and filters on the reference column.",
+		Explanation: "R11a (path machine over every function that reserves a transaction reference): with a non-empty reference, the reservation (Referencer.take, kind referenceTxReference) precedes the store lookup; the log is handed off only after reservation and lookup, never on the path where the lookup found a transaction; the reservation is released (directly or by defer) only on paths that have waited for the persistence signal of the handed-off log or handed nothing off. R11b: the lookup is ledger-scoped and filters on the reference column. R11c: the reference is only ever copied between the engine and the store. R11d: the lookup sees every committed transaction carrying the reference (query conditioned by reference and ledger only; in-memory store reads no other field) — a reverted transaction still holds its reference.",
 		NotDecided:  "there is no SQL fallback (no unique index on reference): the in-memory reservation spanning lookup→persistence is the whole mechanism, which is what is decided; several processes on one ledger are out of scope.",
 		Trusted:     []string{"sync.Map semantics", "the store lookup observes every log whose InsertLogs returned"},
 	}, func(c *Ctx) {
